@@ -367,7 +367,9 @@ func checkHeaders(what string, expected, actual []*conformancev1.Header) multiEr
 	var errs multiErrors
 	actualHeaders := map[string][]string{}
 	for _, hdr := range actual {
-		actualHeaders[strings.ToLower(hdr.Name)] = hdr.Value
+		// (entries that name the same header are one header with all their values)
+		name := strings.ToLower(hdr.Name)
+		actualHeaders[name] = append(actualHeaders[name], hdr.Value...)
 	}
 	for _, hdr := range expected {
 		name := strings.ToLower(hdr.Name)
